@@ -939,11 +939,11 @@ Section Share.
   (* closing the loop: in the root tree every memoised id of an object resolves to a node constructing it *)
   Theorem root_construct v st j st' fuel R m' :
     vok v -> get_state D v st = Ok (j, st') -> (base <= d_next st)%Z ->
-    (need v <= fuel)%nat -> get_tree fuel E proto [] (SOne (s "root")) [] j = Ok (R, m') ->
+    (need v <= fuel)%nat -> get_tree fuel E proto [] (SOne (GetTree.K "root")) [] j = Ok (R, m') ->
     forall cf, (S (2 * need v) <= cf)%nat -> construct_val C files R cf R = Ok v.
   Proof.
     intros Hv Hg Hb Hn Ht. destruct (vok_Q v Hv _ _ _ Hg Hb) as [_ [_ HQ]].
-    destruct (HQ fuel [] (SOne (s "root")) Hn) as [n [m1 [Ht' [_ [_ [_ [Hgr [_ [Hsp Hal]]]]]]]]].
+    destruct (HQ fuel [] (SOne (GetTree.K "root")) Hn) as [n [m1 [Ht' [_ [_ [_ [Hgr [_ [Hsp Hal]]]]]]]]].
     { intros h Hh. discriminate Hh. }
     rewrite Ht in Ht'. injection Ht' as <- <-.
     assert (HmR : forall mt, mono mt m' -> minR mt R).
